@@ -11,6 +11,13 @@ Tie     : harness/c18_harness.cpp runs random op sequences (<= 30 ops, 1..3 hand
           handle (digest), the ledger, and whether the wrapper can request heap storage at all.  The harness replaces
           operator new: it counts the requests of every call (C side and twin) and makes the k-th one throw
           std::bad_alloc on request (`A:<k>`).
+          Input classes: random histories (state-aware: handles that own nothing / an object without data / a table /
+          "unknown" after an injected failure); the allocation-failure sweep (SWEEP); and the objects WITHOUT data
+          (EMPTY_PRODUCERS x EMPTY_PROBES): every route to a handle with ndim == 0 (init, a reader that fails on a handle
+          that owns nothing or on an initialised one, a failed fit, write_key / convolve / permute / the writers on the
+          empty object) x every call the C++ class defines there, among them the value wrappers without a dimension
+          argument (splinetable_ndim, splinetable_total_ncoeffs) and tablesearchcenters.  After every injected failure
+          the value wrappers and the evaluation are called "if-object": on whatever the failed call left behind.
 Oracle  : (independent of the model) return != 0 / NULL  <=>  the C++ call threw / returned false / could not be made;
           values and object digests bit-identical; once the script has released every handle and result (the harness
           counts what is still held) the C side retains no heap at all (ASan allocator statistics; a retention that the
@@ -44,6 +51,13 @@ INJECTABLE = {"init", "readfile", "readmem", "writefile", "writemem", "readkey",
 # wrappers whose first heap request (if they make one) is their own, not the C++ operation's
 OWN_FIRST_REQUEST = {"readfile", "writefile", "glamfit", "grideval", "permute"}
 INJECT_AT = [0, 0, 0, 1, 1, 2, 2, 3, 4, 5, 7, 10, 14, 20, 27, 40, 90, 250]
+# Value wrappers whose C++ operation is DEFINED on an object without data (ndim == 0: a handle after splinetable_init, after
+# a failed readsplinefitstable_mem / fit, after a convolve that emptied the table): the accessors without a dimension
+# argument -- get_ndim() = 0, get_ncoeffs() = std::accumulate over an empty range = 1 -- and searchcenters (a loop over 0
+# dimensions: true, nothing read or written).  NOT defined there, never called: the per-dimension accessors
+# (assert(dim<ndim), null arrays), get_coefficients() (`&coefficients[0]` on the null array), the evaluation functions
+# (`*std::max_element(order, order+0)`).  The harness skips (`skip`) whatever is not in this list on an empty object.
+EMPTY_GETTERS = ["ndim", "total"]
 
 
 def empty_grideval_defined():
@@ -138,9 +152,12 @@ class SeqGen:
             # (frees what is there), and the wrappers that test table->data and whose C++ operation is defined on an
             # object without data
             c += [("free", 4), ("readfile", 4), ("getkey", 1), ("readkey", 1), ("writekey", 1), ("convolve", 0.5)]
+            # ... and, "if-object", the value wrappers and the evaluation: the harness knows what the failed call left behind
+            # (nothing: not called; an object without data: the calls defined there; a table: all of them)
+            c += [("probe", 5)]
         elif s == "empty":
             c += [("readmem", 5), ("readfile", 3), ("glamfit", 5), ("free", 2), ("writefile", 1), ("writemem", 1), ("getkey", 1), ("readkey", 1),
-                  ("get_ndim", 1), ("writekey", 0.5), ("permute", 0.5), ("convolve", 0.7)]
+                  ("get_ndim", 1), ("get_total", 1.5), ("search", 1), ("writekey", 0.5), ("permute", 0.5), ("convolve", 0.7)]
             if self.empty_grideval: c.append(("grideval", 0.7))
         else:
             c += [("get", 6), ("search", 3), ("eval", 3), ("grad", 2), ("deriv", 2), ("getkey", 2), ("readkey", 4), ("writekey", 3),
@@ -161,9 +178,14 @@ class SeqGen:
         if op == "readkey": return "readkey %d %s %s" % (h, r.choice("id"), r.choice(["INTKEY", "DBLKEY", "STRKEY", "NOPE", "NEWKEY0", "NEWKEY1"]))
         if op == "writekey": return "writekey %d %s %s %d" % (h, r.choice("id"), r.choice(["NEWKEY0", "NEWKEY1", "NEWKEY2", "INTKEY", "DBLKEY", "NAXIS", "lower", "LONGKEYNAME12", "longlowercasekey"]), r.randrange(-99, 100))
         if op == "get_ndim": return "get %d ndim %d" % (h, seed)
+        if op == "get_total": return "get %d total %d" % (h, seed)
+        if op == "probe":
+            k = r.choice(["get", "get", "get", "search", "eval", "grad", "deriv"])
+            if k == "get": return "get %d %s %d if-object" % (h, r.choice(EMPTY_GETTERS * 3 + sorted(GETTERS)), seed)
+            return "%s %d in %d if-object" % (k, h, seed)
         if op == "get": return "get %d %s %d" % (h, r.choice(sorted(GETTERS)), seed)
-        if op == "search": return "search %d %s %d" % (h, r.choice(["in", "in", "out"]), seed)
-        if op in ("eval", "grad", "deriv"): return "%s %d in %d" % (op, h, seed)
+        if op == "search": return "search %d %s %d" % (h, "in" if s == "empty" else r.choice(["in", "in", "out", "out", "nan", "edge"]), seed)
+        if op in ("eval", "grad", "deriv"): return "%s %d %s %d" % (op, h, r.choice(["in", "in", "in", "edge"]), seed)
         if op == "glamfit":
             if s == "loaded": v = r.choice(["unsorted", "badmono", "badidx", "good1", "good2"])   # fit refuses a table that holds data
             else: v = r.choice(["good1", "good1", "good2", "unsorted", "badmono", "badidx"])
@@ -228,13 +250,52 @@ SWEEP = [
 
 def sweep_sequences(rnd):
     seqs = []
+    per_dim = sorted(set(GETTERS) - set(EMPTY_GETTERS))
     for setup, op, ks in SWEEP:
         seed = rnd.randrange(1, 1 << 30)
         for k in ks:
             ops = list(setup) + [(op % {"seed": seed}) + " A:%d" % k]
+            # what the failed (or completed) call left behind the handle -- nothing, an object without data (a reader / fit /
+            # convolve that failed after it had dismantled the table), or a table -- is then read through the value wrappers
+            # and evaluated, as far as the C++ class defines that for the object the harness finds there ("if-object")
+            ops += ["get 0 ndim %d if-object" % seed, "get 0 total %d if-object" % seed, "search 0 in %d if-object" % seed,
+                    "get 0 %s %d if-object" % (per_dim[(len(seqs)) % len(per_dim)], seed + k), "eval 0 in %d if-object" % (seed + k)]
             if op.startswith("grideval"): ops.append("nddestroy 0")
             ops.append("free 0")
             seqs.append({"id": "w%d" % len(seqs), "nh": 1, "ops": ops})
+    return seqs
+
+
+# Handles that hold an object WITHOUT data, by every route the C interface offers, x every call the C++ class defines on
+# such an object; after the call the accessors without a dimension argument once more (the object is still a valid one).
+EMPTY_PRODUCERS = [
+    ["init 0"],
+    ["readmem 0 garbage"], ["readmem 0 trunc"], ["readmem 0 trunc2"],       # handle owns nothing: the wrapper creates the object, the read fails
+    ["init 0", "readmem 0 garbage"], ["init 0", "readmem 0 trunc2"],
+    ["init 0", "glamfit 0 unsorted %(seed)d"], ["init 0", "glamfit 0 badmono %(seed)d"], ["init 0", "glamfit 0 badidx %(seed)d"],
+    ["init 0", "writekey 0 i NEWKEY0 5"], ["init 0", "writekey 0 d INTKEY -7", "readkey 0 i INTKEY"],
+    ["init 0", "convolve 0 baddim %(seed)d"], ["init 0", "permute 0 valid %(seed)d"],
+    ["init 0", "writemem 0"], ["init 0", "writefile 0 ok"],
+    ["readfile 0 t1", "free 0", "init 0"], ["readfile 0 missing", "init 0"],
+]
+EMPTY_PROBES = [
+    ["get 0 ndim %(seed)d"], ["get 0 total %(seed)d"], ["search 0 in %(seed)d"],
+    ["getkey 0 NEWKEY0"], ["readkey 0 i NEWKEY0"], ["readkey 0 d INTKEY"], ["writekey 0 d NEWKEY1 3"],
+    ["writefile 0 ok"], ["writemem 0"], ["permute 0 valid %(seed)d"], ["convolve 0 negdim %(seed)d"], ["convolve 0 nokernel %(seed)d"],
+    ["readmem 0 trunc"], ["glamfit 0 badidx %(seed)d"],
+    # ... and the object filled afterwards through the same handle
+    ["glamfit 0 good1 %(seed)d", "get 0 ncoeffs %(seed)d", "get 0 coeffs %(seed)d"], ["readmem 0 t2", "get 0 stride %(seed)d", "get 0 coeffs %(seed)d"],
+]
+
+
+def empty_sequences(rnd, empty_grideval):
+    seqs = []
+    probes = EMPTY_PROBES + ([["grideval 0 0 %(seed)d empty-ok", "nddestroy 0"]] if empty_grideval else [])
+    for prod in EMPTY_PRODUCERS:
+        for probe in probes:
+            d = {"seed": rnd.randrange(1, 1 << 30)}
+            ops = [o % d for o in prod + probe] + ["get 0 total %(seed)d" % d, "get 0 ndim %(seed)d" % d, "search 0 in %(seed)d" % d, "free 0"]
+            seqs.append({"id": "e%d" % len(seqs), "nh": 1, "ops": ops})
     return seqs
 
 
@@ -300,8 +361,13 @@ def run_harness(ctx, exe, seqs, tag, timeout):
         if cur_id is None or cur_id not in ids:
             aborts.append({"seq": None, "rc": rc, "stderr": err[-3000:], "what": "harness died before the first sequence"}); break
         k = ids.index(cur_id)
-        kind = "timeout" if rc == 124 else "terminate" if "terminate called" in err else "asan" if "AddressSanitizer" in err else "ubsan" if "runtime error" in err else "signal"
-        aborts.append({"seq": todo[k], "op_index": int(pending[2]) if pending else None, "op": pending[3] if pending else None, "side": "twin" if cdone else "C",
+        kind = "timeout" if rc == 124 else "terminate" if "terminate called" in err else "asan" if "AddressSanitizer" in err else "ubsan" if "runtime error" in err \
+            else "assert" if re.search(r"Assertion .* failed", err) else "signal"
+        opname = pending[3] if pending else None
+        if opname == "get":     # which of the value wrappers
+            try: opname = "get:" + todo[k]["ops"][int(pending[2])].split()[2]
+            except (IndexError, ValueError): pass
+        aborts.append({"seq": todo[k], "op_index": int(pending[2]) if pending else None, "op": opname, "side": "twin" if cdone else "C",
                        "rc": rc, "kind": kind, "stderr": err[-3000:]})
         results.pop(cur_id, None)
         todo = todo[k + 1:]; restarts += 1
@@ -505,10 +571,12 @@ def report_all(ctx, exe, seqs, verdicts, aborts, results, stats):
         if sig in seen: continue
         seen.add(sig)
         small = shrink(ctx, exe, a["seq"], sig) if exe else a["seq"]
-        wname = WRAPPER_OF.get(a.get("op"), a.get("op"))
+        opn = a.get("op") or ""
+        wname = GETTERS.get(opn[4:], opn) if opn.startswith("get:") else WRAPPER_OF.get(opn, opn)
         what = {"terminate": "an exception escaped from %s into C and terminated the process" % wname,
                 "asan": "AddressSanitizer abort inside %s" % wname, "ubsan": "UBSan abort inside %s" % wname,
-                "timeout": "%s did not return (hang)" % wname, "signal": "the process died inside %s" % wname}[a["kind"]]
+                "timeout": "%s did not return (hang)" % wname, "signal": "the process died inside %s" % wname,
+                "assert": "an assertion of the C++ class failed inside %s (the process aborts)" % wname}[a["kind"]]
         if a["side"] == "twin": what += " (on the C++ twin's side of the call)"
         ctx.report(sig, {"sequence": small, "original_sequence": a["seq"], "failing_op_index": a.get("op_index"), "harness_rc": a["rc"],
                          "stderr_tail": a["stderr"][-1500:], "replay_cmd": replay_cmd(ctx)}, "C18: " + what + "; ops: " + " / ".join(small["ops"]))
@@ -561,10 +629,11 @@ def run(ctx, only=None):
     ctx.coverage["grideval_on_object_without_data"] = "exercised (the core refuses it with an exception)" if eg else \
         "not exercised: photospline::splinetable<>::grideval reads through null arrays when the object holds no data (proposed fix: fixes/C18-6.diff)"
     gen = SeqGen(rnd, side, stats, eg)
-    seqs = only if only is not None else [gen.sequence("s%d" % k) for k in range(nseq)] + sweep_sequences(rnd)
+    seqs = only if only is not None else [gen.sequence("s%d" % k) for k in range(nseq)] + sweep_sequences(rnd) + empty_sequences(rnd, eg)
     stats["sweep_sequences"] = len([q for q in seqs if q["id"].startswith("w")])
+    stats["empty_object_sequences"] = len([q for q in seqs if q["id"].startswith("e")])
     modes = ["san"] if ctx.tier == "quick" else ["san", "shipped"]
-    evals = 0; distinct = set(); kinds = {}; outcomes = {}
+    evals = 0; distinct = set(); kinds = {}; outcomes = {}; on_empty = {}; after_inj = {}
     for mode in modes:
         exe = build(ctx, mode)
         if not exe:
@@ -581,6 +650,8 @@ def run(ctx, only=None):
                 w = o.split(); wname = wrapper_of(w)
                 kinds[wname] = kinds.get(wname, 0) + 1
                 key = "%s:%s" % (wname, r["ts"]); outcomes[key] = outcomes.get(key, 0) + 1
+                if w[0] in ("get", "search") and (r["tdg"] or "").startswith("empty"): on_empty[wname] = on_empty.get(wname, 0) + 1
+                if "if-object" in w: after_inj[wname] = after_inj.get(wname, 0) + 1
                 if r["ts"] != "ok" or r["cv"]: distinct.add((wname, r["ts"], r["cv"], r["cdg"]))
                 if len(ctx.coverage["samples"]) < 6 and r["ts"] in ("fail", "throw") and mode == modes[0]:
                     ctx.coverage["samples"].append({"op": o, "wrapper": wname, "c": r["cs"], "twin": r["ts"], "sequence": q["id"]})
@@ -595,14 +666,22 @@ def run(ctx, only=None):
                                  "rule": "`A:<k>`: the k-th operator-new request inside the C call throws std::bad_alloc, and the k-th request inside the twin's C++ call as well"}
     if only is None and sum(fired.values()) < (150 if ctx.tier == "quick" else 600):
         ctx.tie_ok = False; ctx.broken.append({"kind": "allocation-failure injection ineffective", "fired": fired})
+    # calls of the value wrappers that the C++ class defines on an object without data, made on such an object (measured:
+    # the twin's digest says `empty`), and value / evaluation calls made on whatever an injected allocation failure left
+    ctx.coverage["value_wrappers_on_objects_without_data"] = on_empty
+    ctx.coverage["value_and_evaluation_calls_after_an_injected_failure"] = after_inj
+    need = [GETTERS[g] for g in EMPTY_GETTERS] + ["tablesearchcenters"]
+    if only is None and any(on_empty.get(n, 0) < 100 * len(modes) for n in need):
+        ctx.tie_ok = False; ctx.broken.append({"kind": "the generator no longer reaches objects without data with " + ", ".join(need), "measured": on_empty})
     missing = sorted(set(side["wrappers"]) - set(kinds))
     ctx.coverage["wrappers_never_called"] = missing
     if missing and only is None:
         ctx.tie_ok = False; ctx.broken.append({"kind": "wrappers declared in the header but never exercised", "wrappers": missing})
     ctx.assumptions += [
         "valid handles: value wrappers and wrappers without a `table->data` guard are only called on handles that own an object; evaluation only on loaded tables; splinetable_init only on a handle that owns nothing",
+        "objects without data (ndim == 0: after splinetable_init, a failed readsplinefitstable_mem, a failed fit, a convolve / reader that failed after dismantling the table): called are the wrappers whose C++ operation is defined there - splinetable_ndim, splinetable_total_ncoeffs (empty product 1), tablesearchcenters (no dimension to test: success), key access, the writers, permute with the empty permutation, convolve, fit, the readers, free (and grideval when the core refuses it by an exception); never called there: the per-dimension accessors (assert(dim<ndim), null arrays), splinetable_coefficients (`&coefficients[0]` on the null array), ndsplineeval / _gradient / _deriv (`*std::max_element(order, order+0)`)",
         "behaviour classes of the C++ operations (canThrow / canFail in Model/CApi.lean) are read from the headers; the twin observes the actual outcome on every call",
-        "operations whose C++ implementation has no defined behaviour on an object without data (evaluation, grid evaluation, the per-dimension getters) are only called on loaded tables; a crash that the C++ twin would reproduce identically through the C++ API belongs to C20/C07, not to the wrapper (a *leak* that the twin reproduces is reported: signature leak:c++-object)",
+        "operations whose C++ implementation has no defined behaviour on an object without data (evaluation, grid evaluation unless the core tests ndim, the per-dimension getters, get_coefficients) are only called on loaded tables; a crash that the C++ twin would reproduce identically through the C++ API belongs to C20/C07, not to the wrapper (a *leak* that the twin reproduces is reported: signature leak:c++-object)",
         "corrupt inputs are limited to non-FITS bytes, an empty file, a truncation inside the primary header and a truncation after the coefficient HDU (the reader fails after it has built part of the object); arbitrary corruption is C07",
         "allocation failure: std::bad_alloc is produced by the harness' replacement of the global operator new / new[] (the k-th request inside a call throws); failures of malloc inside cfitsio / SuiteSparse / the C fitter are not injected (they do not produce C++ exceptions)",
         "the objects the model's C machine predicts behind the handles are compared by digest with the C side after every call; the semantics of the C++ operation itself is the twin's observation (outcome and digest), the theorem C18_refines holds for every semantics inside the behaviour classes",
